@@ -15,6 +15,7 @@ REVERTS = {
 }
 
 ASSESS = {
+ "C18-r4-m2": "On equal lengths `append` breaks the tie by `capacity()`. The change violates the append clash rule (reported by C07 on the pairs of explored states) and makes capacity visible (reported by C17's twin differential). Its dependence on the HASHER exists only through `capacity()` after removals (tombstones cluster differently; ~20 elements and a removal are needed), which C18's bounds do not reach: a bound limitation of C18, stated here, not a detection by C18.",
  "C05-r4-m2": "Swapped arguments of the push-versus-rebuild heuristic on the (min, None) hint branch of PriorityQueue::extend: a small batch on a large queue is rebuilt in O(n) instead of pushed. extend is not among the operations C05 bounds (it lists single-element operations and the bulk operations that re-establish order by construction, append, retain, iter_mut drop, conversions). Results stay correct. Not reported, not claimed.",
  "C14-r4-m2": "Moves `size += 1` of push behind the sift-up in both queues (partial revert of D6): only visible after a caught panic in a comparison; C10's business, outside C14 as quantified.",
  "C16-r4-m1": "`drain` computes the new size as `size - iter.len()`: identical on every consistent store; differs only after a caught panic in a retain predicate. Reported by C10 (the continuation reads out of bounds), outside C16 as quantified (fault-free histories).",
@@ -93,5 +94,5 @@ with open(os.path.join(ROOT, "MATRIX.md"), "w") as f:
         cells = ["X" if p in caught else ("." if p in ran else "") for p in PROPS]
         own += bool(own_final)
         f.write(f"| {d} | {prop} | " + " | ".join(cells) + f" | {'yes' if own_final else ('NO' if own_final is False else '?')} |\n")
-    f.write(f"\n{own} of {len(rows)} changes are reported by the check of the property they were written against (final harness). Not reported by their own property, by design (see meta.json `assessment`): " + ", ".join(r[0] for r in rows if r[5] is False) + ".\n")
+    f.write(f"\n{own} of {len(rows)} changes are reported by the check of the property they were written against (final harness). Not reported by their own property (see meta.json `assessment`: out of the property's scope by design, or, for C18-r4-m2, beyond C18's bound while reported by C07 and C17): " + ", ".join(r[0] for r in rows if r[5] is False) + ".\n")
 print("rows", len(rows))
